@@ -711,12 +711,20 @@ class UnitDatabase(Singleton):
         if category_info.valid_units is not None:
             return category_info.valid_units
         else:
-            if category_info.quantity_type != category:
-                return self.GetValidUnits(category_info.quantity_type)
+            # if there is a category named as the quantity type (of that same quantity type), its
+            # valid units are used
+            quantity_type = category_info.quantity_type
+            named_info = self.categories_to_quantity_types.get(quantity_type)
+            if (
+                quantity_type != category
+                and named_info is not None
+                and named_info.quantity_type == quantity_type
+            ):
+                return self.GetValidUnits(quantity_type)
 
             # the valid units have not been specified for the given category (so, let's return
             # the units for the quantity type)
-            return self.GetUnits(category_info.quantity_type)
+            return self.GetUnits(quantity_type)
 
     def GetDefaultValue(self, category: str) -> float:
         """
